@@ -80,6 +80,10 @@ TraceCase ==
      /\ Judge(InsertOnly(fs) => e.whole_stripped = DocStr(doc), "bytes_lost_or_reordered")
      /\ Judge(InsertOnly(fs) => e.chunked_stripped = DocStr(doc),
               IF HasBad(doc) /\ Len(e.sched) > 1 THEN "F4b_error_path_loses_held_bytes" ELSE "bytes_lost_or_reordered")
+     \* ... and under the byte-level sweeps (every single cut, one byte at a time, empty chunks interleaved)
+     /\ Judge((e.sweep /\ InsertOnly(fs) /\ ~HasBad(doc)) => (e.byte1_stripped = DocStr(doc) /\ e.byte1_empty_stripped = DocStr(doc) /\ e.cut_lost = <<>>),
+              "bytes_lost_or_reordered")
+     /\ Judge((e.sweep /\ InertFs(doc, fs) /\ ~HasBad(doc)) => (e.byte1 = DocStr(doc) /\ e.byte1_empty = DocStr(doc)), "inert_not_passthrough")
      /\ Judge(InertFs(doc, fs) => e.whole = DocStr(doc), "inert_not_passthrough")
      /\ Judge(InertFs(doc, fs) => e.chunked = DocStr(doc),
               IF HasBad(doc) /\ Len(e.sched) > 1 THEN "F4b_error_path_loses_held_bytes" ELSE "inert_not_passthrough")
